@@ -224,18 +224,20 @@ func runHandshake(cli, srv *gmtls.Conn, timeout time.Duration) hsResult {
 
 func gmServerConfig(f *fixtures, suites []uint16) *gmtls.Config {
 	return &gmtls.Config{
-		GMSupport:    &gmtls.GMSupport{},
-		Certificates: []gmtls.Certificate{f.sig, f.enc},
-		CipherSuites: suites,
+		GMSupport:                   &gmtls.GMSupport{},
+		Certificates:                []gmtls.Certificate{f.sig, f.enc},
+		CipherSuites:                suites,
+		DynamicRecordSizingDisabled: true,
 	}
 }
 
 func gmClientConfig(f *fixtures, suites []uint16) *gmtls.Config {
 	return &gmtls.Config{
-		GMSupport:    &gmtls.GMSupport{},
-		RootCAs:      f.sm2CA,
-		ServerName:   "test.example.com",
-		CipherSuites: suites,
+		GMSupport:                   &gmtls.GMSupport{},
+		RootCAs:                     f.sm2CA,
+		ServerName:                  "test.example.com",
+		CipherSuites:                suites,
+		DynamicRecordSizingDisabled: true,
 	}
 }
 
@@ -250,6 +252,8 @@ func gmPair(suite uint16) (cli, srv *gmtls.Conn, m *mitm, err error) {
 	cc.InsecureSkipVerify = true // identity is C08's subject; here only the record layer matters
 	cli = gmtls.Client(ce, cc)
 	srv = gmtls.Server(se, gmServerConfig(f, []uint16{suite}))
+	ht.register(cli)
+	ht.register(srv)
 	r := runHandshake(cli, srv, 10*time.Second)
 	if r.cliErr != nil || r.srvErr != nil || r.cliPanic != nil || r.srvPanic != nil || r.timedOut {
 		m.close()
